@@ -202,6 +202,7 @@ func init() {
 			}
 			return len(alive)
 		},
+		"verifGoroutineMark": func(fr *frame, a []value) value { return nil },
 		"verifGoroutines": func(fr *frame, a []value) value {
 			n := 0
 			for _, g := range fr.i.sched.gs {
